@@ -341,3 +341,29 @@ def shard_files(prefix):
     d = os.path.dirname(prefix)
     b = os.path.basename(prefix)
     return sorted(os.path.join(d, f) for f in os.listdir(d) if f.startswith(b + ".") and f.endswith(".ndjson"))
+
+
+GEN_INFO = {}      # shard path -> (cmd, args, seed) that produced it (generation is deterministic in the seed)
+
+
+def register_shards(shards, cmd, args, seed):
+    for f in shards:
+        GEN_INFO[f] = (cmd, [str(a) for a in args], seed)
+
+
+def rerun_in_context(ctx, shard, idx, mode, module, n, cfg=None):
+    """A rejection that does not reproduce in isolation may depend on state the code under test carried over from the
+    PRECEDING cases of the same process (a cache, a pool).  Re-run the deterministic generator with the same seed and
+    arguments and validate the same shard again: the same line must be rejected again."""
+    if shard not in GEN_INFO:
+        return None
+    cmd, args, seed = GEN_INFO[shard]
+    d = ctx.sub("rerun%d" % n)
+    prefix = os.path.join(d, os.path.basename(shard).split(".")[0])
+    ctx.harness_json([cmd, "-out", prefix, "-seed", seed] + args)
+    again = os.path.join(d, os.path.basename(shard))
+    r = ctx.tlc(module, cfg=cfg or module + ".cfg", env=dict(VERIF_TRACE=again, VERIF_MODE=mode, VERIF_EXPLAIN="1"), heap="4g")
+    if idx not in r["rejects"] or read_line(again, idx) != read_line(shard, idx):
+        return None
+    return dict(kind="rerun", cmd=cmd, args=args, seed=seed, shard=os.path.basename(shard), line=idx, mode=mode, module=module,
+                cfg=cfg or module + ".cfg", event=read_line(again, idx))
